@@ -10,6 +10,8 @@ import TrompModel.Gen.Cxx.ExpectDeath
 import TrompModel.Gen.Cxx.NullOnMoveAssignPtr
 import TrompModel.Gen.Cxx.NullOnMoveAssignCopy
 import TrompModel.Gen.Cxx.NullOnMoveAssignMove
+import TrompModel.Gen.Cxx.NullOnMoveCopyCtor
+import TrompModel.Gen.Cxx.NullOnMoveMoveCtor
 import TrompModel.Tie.Base
 
 namespace Tromp.Tie
@@ -53,5 +55,11 @@ theorem expect_death_tie {μ : Type} [DecidableEq μ] (monitor : μ) (head : Opt
 theorem null_on_move_assign_ptr_tie {μ : Type} (t p : Option μ) : Cxx.null_on_move_assign_ptr t p = t := rfl
 theorem null_on_move_assign_copy_tie {μ : Type} (p : Option μ) : Cxx.null_on_move_assign_copy p = p := rfl
 theorem null_on_move_assign_move_tie {μ : Type} (p : Option μ) : Cxx.null_on_move_assign_move p = p := rfl
+
+/-- **a copy or a move of a deathwatched object is unwatched**: both constructors of the pointer holder leave the new holder
+    null whatever the source holds (no member initialiser, empty body, default member initialiser `T* p = nullptr`) — the model's
+    `copyw` / `movew` create a fresh object with no requirement (C13 `copy_is_unwatched`). -/
+theorem null_on_move_copy_ctor_tie {μ : Type} (other : Option μ) : Cxx.null_on_move_copy_ctor other = none := rfl
+theorem null_on_move_move_ctor_tie {μ : Type} (other : Option μ) : Cxx.null_on_move_move_ctor other = none := rfl
 
 end Tromp.Tie
